@@ -19,6 +19,7 @@ func init() {
 		Explain: "C19.1 parse errors propagate: in ParseBlocklists every error of net.ParseCIDR / regexp.Compile / interface enumeration leads, on its non-nil edge, only to a return with a non-nil error (never to 'skip the entry'); ParseConfig returns the configuration only if ParseBlocklists succeeded; nothing reachable from the reload path (ParseConfig, OnReload, selector and GeoIP loaders) calls a panicking or exiting API; " +
 			"C19.2 swap on success only: main calls OnReload only when ParseConfig succeeded, OnReload replaces the phantom selector only when the new one loaded; " +
 			"C19.3 printers: for every type registered through AddStatsModule (computed from main), code reachable from PrintAndReset contains no integer division by a non-constant, and every call through an optional (elsewhere nil-checked) interface field of its receiver is dominated by a nil test of that same field (contradiction rule). " +
+			"C19.7 both lists enforced: every non-empty result of the covert guard is dominated by the subnet-list test on the resolved address and the domain-pattern test on the resolved host (shared with C06.1); " +
 			"Decides error propagation and the structural panic sources of housekeeping; the full configuration space, TOML decoding and the non-atomic field-wise copy in OnReload are not decided.",
 		Assume: []string{"static repo callees only; dependency code is not entered", "a field that is nil-checked somewhere in its package is treated as optional everywhere"}})
 }
@@ -871,6 +872,10 @@ func checkC19Enforcement(c *Ctx) {
 		}
 	}
 
+	// ---- C19.7 both configured lists stand between every covert and its admission
+	r.Rule("C19.7", "every admitted covert passed the subnet lists and the domain patterns", 2)
+	checkCovertGuard(c, "C19.7", true)
+
 	// ---- C19.5 lock discipline of the reload and decision path
 	r.Rule("C19.5", "reload and policy decisions release every lock they take", 1)
 	var fns []*ssa.Function
@@ -998,7 +1003,6 @@ func errNames(call *ssa.Call) []string {
 	}
 	return out
 }
-
 
 // checkPolicyListWriters: the enforced policy lists only ever grow during a parse - every store to one of them is a
 // reset to the empty list, an append of one entry to the same list (directly, through a recording helper, or through
